@@ -1,4 +1,181 @@
-import Esp.Model.Conn
+import Esp.Lemmas.ConnLife
+/-!
+# C05 — connection state only moves forward; closed is final; one connect per object
+
+Property theorems.  Model: the connection LTS `Esp.Conn` (`Esp/Model/Conn.lean`).  Quantifier: every
+event list — all interleavings of user calls (start, finish, disconnect, force disconnect, cancel),
+device events (responses, requests, garbage, EOF, reset, write failure) and timer expiries,
+including any number of them between two resumptions of a task (the same event-loop turn).
+-/
 namespace Esp.C05
-theorem placeholder : True := trivial
+open Esp Conn
+
+/-- the lifecycle invariant: every program counter of the two connect phases is tied to the
+lifecycle state.  (It is stated so that it also holds *between* the primitive actions of one
+transition: while the finish task walks from "helper ready" to "hello sent" the state is already
+handshake-complete.) -/
+structure Inv (s : State) : Prop where
+  startIdle : s.start = .idle → s.st = .init ∨ s.st = .closed
+  startPend : (s.start = .awaitResolve ∨ s.start = .awaitSocket) → s.st = .init ∨ s.st = .closed
+  startErr : ∀ e, s.start = .done (.err e) → s.st = .closed
+  stInit : s.st = .init → s.finish = .idle
+  finIdle : s.finish = .idle → s.st = .init ∨ s.st = .sockOpen ∨ s.st = .closed
+  finTr : (s.finish = .awaitTransport ∨ s.finish = .awaitReady) → s.st = .sockOpen ∨ s.st = .hsDone ∨ s.st = .closed
+  finHello : s.finish = .awaitHello → s.st = .hsDone ∨ s.st = .closed
+  finOk : s.finish = .done .ok → s.st = .connected ∨ s.st = .closed
+  finErr : ∀ e, s.finish = .done (.err e) → s.st = .closed
+  stConn : s.st = .connected → s.finish = .done .ok
+  stHs : s.st = .hsDone → s.finish = .awaitTransport ∨ s.finish = .awaitReady ∨ s.finish = .awaitHello
+  stSock : s.st = .sockOpen → s.start = .done .ok
+
+theorem init_inv (noise login : Bool) : Inv { noise := noise, login := login } := by
+  constructor <;> simp
+
+theorem life_inv (a b : State) (h : Inv a) (l : Life a b) : Inv b := by
+  obtain ⟨a1, a2, a3, a4, a5, a6, a7, a8, a9, a10, a11, a12⟩ := h
+  cases l <;> (constructor <;> grind [StartPend, FinPend])
+
+theorem prim_inv (a b : State) (h : Inv a) (p : Prim a b) : Inv b := life_inv a b h (prim_life a b p)
+
+theorem step_inv (s : State) (h : Inv s) (e : Ev) : Inv (step s e) := (step_reach s e).inv prim_inv h
+
+theorem run_inv (s : State) (h : Inv s) (evs : List Ev) : Inv (run s evs) := (run_reach s evs).inv prim_inv h
+
+theorem rank_le (x : CSt) : rank x ≤ 4 := by cases x <;> simp [rank]
+
+/-- forward-only, as a relation between two states -/
+def Mono (a b : State) : Prop := rank a.st ≤ rank b.st ∧ (a.st = .closed → b.st = .closed)
+
+theorem life_mono (a b : State) (h : Inv a) (l : Life a b) : Mono a b := by
+  have hr := rank_le a.st
+  obtain ⟨a1, a2, a3, a4, a5, a6, a7, a8, a9, a10, a11, a12⟩ := h
+  unfold Mono
+  cases l with
+  | closed h1 _ _ => rw [h1]; exact ⟨hr, fun _ => rfl⟩
+  | sockOpened g1 g2 h1 _ _ =>
+    rw [h1]; refine ⟨?_, fun hc => absurd hc g2⟩
+    rcases a2 (Or.inr g1) with h | h <;> simp_all [rank]
+  | hsEnter g1 g2 h1 _ _ =>
+    rw [h1]; refine ⟨?_, fun hc => absurd hc g2⟩
+    rcases a6 g1 with h | h | h <;> simp_all [rank]
+  | connected g1 g2 h1 _ _ =>
+    rw [h1]; refine ⟨?_, fun hc => absurd hc g2⟩
+    rcases a7 g1 with h | h <;> simp_all [rank]
+  | _ => rename_i h1 _ _; rw [h1]; exact ⟨Nat.le_refl _, id⟩
+
+theorem reach_mono (a b : State) (h : Inv a) (r : Reach a b) : Mono a b ∧ Inv b := by
+  induction r with
+  | refl => exact ⟨⟨Nat.le_refl _, id⟩, h⟩
+  | snoc _ p ih =>
+    obtain ⟨⟨m1, m2⟩, hi⟩ := ih
+    obtain ⟨n1, n2⟩ := life_mono _ _ hi (prim_life _ _ p)
+    exact ⟨⟨Nat.le_trans m1 n1, fun hc => n2 (m2 hc)⟩, prim_inv _ _ hi p⟩
+
+/-- one step never moves the lifecycle backwards and never leaves closed -/
+theorem step_mono (s : State) (h : Inv s) (e : Ev) :
+    rank s.st ≤ rank (step s e).st ∧ (s.st = .closed → (step s e).st = .closed) :=
+  (reach_mono s _ h (step_reach s e)).1
+
+/-- on a closed connection no chain of primitives completes a connect phase -/
+theorem reach_closed (a b : State) (h : Inv a) (hc : a.st = .closed) (r : Reach a b) :
+    b.st = .closed ∧ (b.start = .done .ok → a.start = .done .ok) ∧ (b.finish = .done .ok → a.finish = .done .ok) := by
+  induction r with
+  | refl => exact ⟨hc, id, id⟩
+  | snoc r p ih =>
+    obtain ⟨i1, i2, i3⟩ := ih
+    have hi := (reach_mono _ _ h r).2
+    cases prim_life _ _ p with
+    | sockOpened g1 g2 _ _ _ => exact absurd i1 g2
+    | hsEnter g1 g2 _ _ _ => exact absurd i1 g2
+    | connected g1 g2 _ _ _ => exact absurd i1 g2
+    | closed h1 h2 h3 => exact ⟨h1, by rw [h2]; exact i2, by rw [h3]; exact i3⟩
+    | same h1 h2 h3 => exact ⟨by rw [h1]; exact i1, by rw [h2]; exact i2, by rw [h3]; exact i3⟩
+    | startBegin g1 g2 h1 h2 h3 => exact ⟨by rw [h1]; exact i1, by rw [h2]; simp, by rw [h3]; exact i3⟩
+    | toSocket g h1 h2 h3 => exact ⟨by rw [h1]; exact i1, by rw [h2]; simp, by rw [h3]; exact i3⟩
+    | startFail g1 g2 e h1 h2 h3 => exact ⟨by rw [h1]; exact i1, by rw [h2]; simp, by rw [h3]; exact i3⟩
+    | finishBegin g1 g2 h1 h2 h3 => exact ⟨by rw [h1]; exact i1, by rw [h2]; exact i2, by rw [h3]; simp⟩
+    | toReady g h1 h2 h3 => exact ⟨by rw [h1]; exact i1, by rw [h2]; exact i2, by rw [h3]; simp⟩
+    | finFail g1 g2 e h1 h2 h3 => exact ⟨by rw [h1]; exact i1, by rw [h2]; exact i2, by rw [h3]; simp⟩
+    | helloStart g1 g2 h1 h2 h3 => exact ⟨by rw [h1]; exact i1, by rw [h2]; exact i2, by rw [h3]; simp⟩
+
+/-- **C05 (forward only, closed is final).**  From a fresh connection object, after ANY event list,
+one more event of any kind never lowers the lifecycle rank
+(initialized < socket opened < handshake complete < connected < closed) and never leaves closed. -/
+theorem c05_monotone (noise login : Bool) (evs : List Ev) (e : Ev) :
+    let s := run { noise := noise, login := login } evs
+    rank s.st ≤ rank (step s e).st ∧ (s.st = .closed → (step s e).st = .closed) :=
+  step_mono _ (run_inv _ (init_inv noise login) evs) e
+
+/-- **C05 (closed is final), over whole continuations.** -/
+theorem c05_closed_final (noise login : Bool) (evs₁ evs₂ : List Ev) :
+    (run { noise := noise, login := login } evs₁).st = .closed →
+    (run { noise := noise, login := login } (evs₁ ++ evs₂)).st = .closed := by
+  intro hc
+  have hi := run_inv _ (init_inv noise login) evs₁
+  simp only [run, List.foldl_append] at *
+  generalize List.foldl step _ evs₁ = s at *
+  induction evs₂ generalizing s with
+  | nil => simpa
+  | cons e es ih => exact ih _ ((step_mono s hi e).2 hc) (step_inv s hi e)
+
+/-- **C05 (a close that has taken effect is never undone by a connect phase).**  If the connection
+is closed when a connect-phase task resumes — even with a successful inner result, in the same
+turn — the phase does not complete successfully and the state stays closed. -/
+theorem c05_close_wins (noise login : Bool) (evs : List Ev) :
+    let s := run { noise := noise, login := login } evs
+    s.st = .closed →
+      ((step s .wakeStart).st = .closed ∧ ((step s .wakeStart).start = .done .ok → s.start = .done .ok)) ∧
+      ((step s .wakeFinish).st = .closed ∧ ((step s .wakeFinish).finish = .done .ok → s.finish = .done .ok)) := by
+  intro s hc
+  have hi := run_inv _ (init_inv noise login) evs
+  have h1 := reach_closed s _ hi hc (step_reach s .wakeStart)
+  have h2 := reach_closed s _ hi hc (step_reach s .wakeFinish)
+  exact ⟨⟨h1.1, h1.2.1⟩, ⟨h2.1, h2.2.2⟩⟩
+
+/-- **C05 (one connect attempt per object).**  `start_connection` on an object whose start phase has
+left the initial state is refused at once (RuntimeError) and changes nothing else; likewise
+`finish_connection` outside socket-opened. -/
+theorem c05_once (s : State) :
+    (s.st ≠ .init → step s .callStart = { s with refused := s.refused + 1 }) ∧
+    (s.st ≠ .sockOpen → step s .callFinish = { s with refused := s.refused + 1 }) := by
+  refine ⟨?_, ?_⟩ <;> intros <;> simp_all [step, aRefused]
+
+/-- … and the lifecycle never returns to a state in which a phase would be accepted again: once the
+state has left `initialized` it never comes back, and once the finish phase has been used
+(`socket opened` left, or the phase failed) `socket opened` never comes back -/
+theorem c05_no_reuse (noise login : Bool) (evs : List Ev) (e : Ev) :
+    let s := run { noise := noise, login := login } evs
+    (s.st ≠ .init → (step s e).st ≠ .init) ∧
+    (s.st ≠ .init → s.st ≠ .sockOpen → (step s e).st ≠ .sockOpen) := by
+  intro s
+  have hm := step_mono s (run_inv _ (init_inv noise login) evs) e
+  have hr := rank_le s.st
+  constructor
+  · intro h0 h1; rw [h1] at hm; cases hs : s.st <;> simp_all [rank]
+  · intro h0 h1 h2; rw [h2] at hm; cases hs : s.st <;> simp_all [rank]
+
+theorem c05_flags (s : State) : hsComplete s = true ↔ (s.st = .hsDone ∨ s.st = .connected) := by
+  simp [hsComplete]
+
+/-! ## non-vacuity and the repaired race -/
+
+/-- the happy path reaches connected -/
+example : (run {} [.callStart, .resolved true, .wakeStart, .sockDone true, .wakeStart, .callFinish, .connMade,
+    .wakeFinish, .data [.hresp (.hello true true)], .wakeFinish]).st = .connected := by decide +kernel
+
+/-- HelloResponse + garbage in ONE chunk, then the finish task resumes with its successful inner
+result before the interrupt callback runs: the state stays closed and the phase fails -/
+example : let s := run {} [.callStart, .resolved true, .wakeStart, .sockDone true, .wakeStart, .callFinish, .connMade,
+    .wakeFinish, .data [.hresp (.hello true true), .garbage], .wakeFinish, .cbFinish]
+    s.st = .closed ∧ s.finish = .done (.err .protocol) ∧ s.pingArmed = false := by decide +kernel
+
+/-- force_disconnect in the turn the socket connects -/
+example : let s := run {} [.callStart, .resolved true, .wakeStart, .sockDone true, .force, .wakeStart, .cbStart]
+    s.st = .closed ∧ s.start = .done (.err .unhandled) ∧ s.sockClosed = true := by decide +kernel
+
+/-- a second start / finish on a used object is refused and changes nothing else -/
+example : let s := run {} [.callStart, .resolved true, .wakeStart, .sockDone true, .wakeStart, .callStart, .callFinish,
+    .connMade, .wakeFinish, .callFinish, .callStart]
+    s.refused = 3 ∧ s.st = .hsDone := by decide +kernel
+
 end Esp.C05
